@@ -55,12 +55,84 @@ func src(n ast.Node) string {
 	return s
 }
 
+// helpers: package-level functions whose whole body is `return <expr>` — pure predicates a maintainer may have
+// extracted from a condition (isComparisonOp(op) …); a call to one is read as its body with the arguments substituted
+var helpers = map[string]*ast.FuncDecl{}
+
 func parseFile(path string) *ast.File {
 	f, err := parser.ParseFile(fset, path, nil, 0)
 	if err != nil {
 		panic(failure{"cannot parse " + path + ": " + err.Error()})
 	}
+	for _, d := range f.Decls {
+		if fd, ok := d.(*ast.FuncDecl); ok && fd.Recv == nil && fd.Body != nil && len(fd.Body.List) == 1 {
+			if ret, ok := fd.Body.List[0].(*ast.ReturnStmt); ok && len(ret.Results) == 1 {
+				helpers[fd.Name.Name] = fd
+			}
+		}
+	}
 	return f
+}
+
+// substExpr copies e replacing the identifiers in m; ok=false on any node kind it does not know (fail closed)
+func substExpr(e ast.Expr, m map[string]ast.Expr) (ast.Expr, bool) {
+	switch x := e.(type) {
+	case *ast.Ident:
+		if r, ok := m[x.Name]; ok {
+			return r, true
+		}
+		return x, true
+	case *ast.BasicLit:
+		return x, true
+	case *ast.ParenExpr:
+		i, ok := substExpr(x.X, m)
+		return &ast.ParenExpr{Lparen: x.Lparen, X: i, Rparen: x.Rparen}, ok
+	case *ast.BinaryExpr:
+		a, ok1 := substExpr(x.X, m)
+		b, ok2 := substExpr(x.Y, m)
+		return &ast.BinaryExpr{X: a, OpPos: x.OpPos, Op: x.Op, Y: b}, ok1 && ok2
+	case *ast.UnaryExpr:
+		a, ok := substExpr(x.X, m)
+		return &ast.UnaryExpr{OpPos: x.OpPos, Op: x.Op, X: a}, ok
+	case *ast.SelectorExpr:
+		a, ok := substExpr(x.X, m)
+		return &ast.SelectorExpr{X: a, Sel: x.Sel}, ok
+	}
+	return e, false
+}
+
+// inlineHelper: `f(a, b)` for a helper `func f(p, q T) bool { return E }` is E[p:=a, q:=b]
+func inlineHelper(e ast.Expr) (ast.Expr, bool) {
+	call, ok := unparen(e).(*ast.CallExpr)
+	if !ok {
+		return nil, false
+	}
+	id, ok := call.Fun.(*ast.Ident)
+	if !ok {
+		return nil, false
+	}
+	fd, ok := helpers[id.Name]
+	if !ok {
+		return nil, false
+	}
+	names := []string{}
+	for _, fld := range fd.Type.Params.List {
+		for _, n := range fld.Names {
+			names = append(names, n.Name)
+		}
+	}
+	if len(names) != len(call.Args) {
+		return nil, false
+	}
+	m := map[string]ast.Expr{}
+	for i, n := range names {
+		m[n] = call.Args[i]
+	}
+	r, ok := substExpr(fd.Body.List[0].(*ast.ReturnStmt).Results[0], m)
+	if !ok {
+		return nil, false
+	}
+	return &ast.ParenExpr{Lparen: call.Pos(), X: r, Rparen: call.End()}, true
 }
 
 func findFunc(f *ast.File, name string) *ast.FuncDecl {
@@ -130,12 +202,18 @@ func splitBin(e ast.Expr, op token.Token) []ast.Expr {
 	if b, ok := e2.(*ast.BinaryExpr); ok && b.Op == op {
 		return append(splitBin(b.X, op), splitBin(b.Y, op)...)
 	}
+	if in, ok := inlineHelper(e); ok {
+		return []ast.Expr{in}
+	}
 	return []ast.Expr{e}
 }
 
 // splitOr flattens a (possibly parenthesised) disjunction
 func splitOr(e ast.Expr) []ast.Expr {
 	e = unparen(e)
+	if in, ok := inlineHelper(e); ok {
+		e = unparen(in)
+	}
 	if b, ok := e.(*ast.BinaryExpr); ok && b.Op == token.LOR {
 		return append(splitOr(b.X), splitOr(b.Y)...)
 	}
@@ -229,6 +307,56 @@ func chain(s *ast.IfStmt) []arm {
 			failf(s.Else, "unrecognised else branch")
 		}
 	}
+}
+
+// stmtChain: an `if … else if …` chain, or the equivalent `switch tag { case a: … case b, c: … default: … }`
+// (no init, no fallthrough; a case with several values is the disjunction; cases are tried in source order, which
+// for constant, mutually exclusive values is the order of the if chain) — read as arms `tag == a`, `tag == b || tag == c`, else
+func stmtChain(st ast.Stmt) ([]arm, bool) {
+	switch s := st.(type) {
+	case *ast.IfStmt:
+		return chain(s), true
+	case *ast.SwitchStmt:
+		if s.Init != nil || s.Tag == nil {
+			failf(s, "switch with an init clause or without a tag is not recognised")
+		}
+		arms := []arm{}
+		var deflt *arm
+		for _, c := range s.Body.List {
+			cc, ok := c.(*ast.CaseClause)
+			if !ok {
+				failf(c, "unrecognised switch clause")
+			}
+			for _, b := range cc.Body {
+				if br, ok := b.(*ast.BranchStmt); ok && br.Tok == token.FALLTHROUGH {
+					failf(b, "fallthrough is not recognised")
+				}
+			}
+			body := &ast.BlockStmt{Lbrace: cc.Colon, List: cc.Body, Rbrace: cc.End()}
+			if cc.List == nil {
+				if deflt != nil {
+					failf(cc, "two default clauses")
+				}
+				deflt = &arm{nil, body, cc}
+				continue
+			}
+			var cond ast.Expr
+			for _, v := range cc.List {
+				eq := &ast.BinaryExpr{X: s.Tag, OpPos: v.Pos(), Op: token.EQL, Y: v}
+				if cond == nil {
+					cond = eq
+				} else {
+					cond = &ast.BinaryExpr{X: cond, OpPos: v.Pos(), Op: token.LOR, Y: eq}
+				}
+			}
+			arms = append(arms, arm{cond, body, cc})
+		}
+		if deflt != nil {
+			arms = append(arms, *deflt)
+		}
+		return arms, true
+	}
+	return nil, false
 }
 
 // defineCall matches `name := fn(&s.Field, argName)` and returns (name, Field)
@@ -731,11 +859,11 @@ func extractExecBinary(f *ast.File) ([]evalCell, []elsePanic) {
 		if len(oa.body.List) != 1 {
 			failf(oa.body, "executeBinaryExpr: expected one if chain per left operand type")
 		}
-		inner, ok := oa.body.List[0].(*ast.IfStmt)
+		innerArms, ok := stmtChain(oa.body.List[0])
 		if !ok {
-			failf(oa.body, "executeBinaryExpr: expected one if chain per left operand type")
+			failf(oa.body, "executeBinaryExpr: expected one if chain (or switch on the operator) per left operand type")
 		}
-		for _, a := range chain(inner) {
+		for _, a := range innerArms {
 			if a.cond == nil {
 				msg, ok := panicMessage(a.body)
 				if !ok {
@@ -813,7 +941,7 @@ func extractExecBinary(f *ast.File) ([]evalCell, []elsePanic) {
 			cells = append(cells, c)
 		}
 		if len(elses) == 0 || elses[len(elses)-1].lhs != lt {
-			failf(inner, "executeBinaryExpr: the chain for %s is not closed by `else { panic(…) }`", tn)
+			failf(oa.body, "executeBinaryExpr: the chain for %s is not closed by `else { panic(…) }`", tn)
 		}
 	}
 	return cells, elses
